@@ -14,6 +14,8 @@ const (
 	handshakeVersion byte = 1
 
 	defaultPoolSize int = 3
+	// the dialer opens that many TCP links and makes four receive queues per link
+	maxPoolSize int = 1024
 )
 
 var (
